@@ -869,7 +869,9 @@ pub fn gen(r: &mut Rng, n: usize, flavor: &str) -> Vec<String> {
         out.push("reconn 2800".to_string());
         // connections made to the real Session's listener: from an unrelated address, and from the address of a
         // tracker-listed peer that is still queued as a candidate
-        out.push("accept".to_string());
+        out.push("accept i".to_string());
+        // ... and when the client already has its fill of connections it has no interest in: no further one is taken
+        out.push("accept u".to_string());
     }
     if flavor == "C08" {
         // "the peer id the tracker announced for that address": the (address, id) pairs read from tracker replies —
